@@ -501,6 +501,15 @@ func (s Sink) Discharged() (bool, string) {
 				}
 			}
 		}
+		// a passed bit test "(x & (1 << h)) != 0" bounds h by the width of x (at most 64): enough for an array of
+		// 64 or more elements (the accumulator's Trees)
+		if s.BaseLen >= 64 {
+			for _, c := range s.Conds {
+				if c.Op == "!=" && c.R == "const:0" && strings.HasPrefix(c.L, "(") && strings.HasSuffix(c.L, " & (const:1 << "+op+"))") {
+					return true, "index bounded by a passed bit test: " + c.String()
+				}
+			}
+		}
 		if k, ok := constOf("const:" + op); ok {
 			if k == 0 { // X <= len(base) and X != 0 imply len(base) >= 1
 				for _, c1 := range s.Conds {
@@ -957,6 +966,12 @@ func (ge *GuardEngine) LinearDischarge(s Sink) (bool, string) {
 		if bound == nil {
 			return false, ""
 		}
+		// a constant upper bound within the capacity the slice is known to have (appends never shrink capacity)
+		if k, isK := constInt(bound); isK && s.Kind == "slice-high" {
+			if c, ok := minCap(sl.X, 0); ok && k >= 0 && k <= c {
+				return true, "constant bound within the slice's capacity"
+			}
+		}
 		var extra []LinF
 		if body := shrinkLoopOf(ge, s.Fn, sl.X); body != nil {
 			inv, ok := ge.lockstepInvariant(sl.X)
@@ -1066,4 +1081,44 @@ func (ge *GuardEngine) lockstepInvariant(base ssa.Value) ([]LinF, bool) {
 		}
 	}
 	return out, len(out) > 0
+}
+
+// minCap: a lower bound of cap(v) for a slice value built from a make / array with constant capacity through
+// appends and constant re-slicing.
+func minCap(v ssa.Value, depth int) (int64, bool) {
+	if depth > 12 {
+		return 0, false
+	}
+	switch x := v.(type) {
+	case *ssa.MakeSlice:
+		return constInt(x.Cap)
+	case *ssa.Alloc:
+		return arrayLen(x.Type())
+	case *ssa.Slice:
+		lo := int64(0)
+		if x.Low != nil {
+			l, ok := constInt(x.Low)
+			if !ok || l < 0 {
+				return 0, false
+			}
+			lo = l
+		}
+		if x.Max != nil {
+			m, ok := constInt(x.Max)
+			if !ok {
+				return 0, false
+			}
+			return m - lo, true
+		}
+		c, ok := minCap(x.X, depth+1)
+		return c - lo, ok
+	case *ssa.Call:
+		if b, ok := x.Call.Value.(*ssa.Builtin); ok && b.Name() == "append" && len(x.Call.Args) >= 1 {
+			return minCap(x.Call.Args[0], depth+1)
+		}
+		if f := x.Call.StaticCallee(); f != nil && f.Pkg != nil && f.Pkg.Pkg.Path() == "encoding/binary" && strings.HasPrefix(f.Name(), "Append") && len(x.Call.Args) == 3 {
+			return minCap(x.Call.Args[1], depth+1)
+		}
+	}
+	return 0, false
 }
